@@ -4,9 +4,20 @@ import numpy as np
 from .ref import quat as rq
 
 
+def depth(tier):
+    """Thorough-tier depth factor: the module's THOROUGH_DEPTH (exported by the runner as VERIF_DEPTH) unless the caller set
+    VERIF_DEPTH itself (e.g. VERIF_DEPTH=1 for the base thorough budget; values below 1 are raised to 1 so that region quotas stay reachable)."""
+    import os
+    return 1.0 if tier == "quick" else max(1.0, float(os.environ.get("VERIF_DEPTH", "1")))
+
+
+def reps(n, tier):
+    return max(1, int(round(n * depth(tier))))
+
+
 def budget(base, tier, nshards, mult=16):
-    """Cases for this shard: `base` in total for quick, base*mult for thorough."""
-    total = base * (1 if tier == "quick" else mult)
+    """Cases for this shard: `base` in total for quick, base*mult*depth for thorough."""
+    total = base * (1 if tier == "quick" else mult * depth(tier))
     return max(1, int(np.ceil(total / nshards)))
 
 
